@@ -617,7 +617,11 @@ Spec == Init /\ [][Next]_vars
 
 (* ---- what TLC checks ---- *)
 Conforms == diag = <<>>
-NoPropertyViolation == pviol = <<>>
+(* Signatures of recorded known findings (known-findings.txt, passed in the header of the trace file) do not stop the
+   validation: TLC prints one KNOWN-HIT line per occurrence, which the harness turns into the KNOWN-FINDING report; any
+   other entry of pviol violates the invariant. *)
+KnownSigs == IF "known" \in DOMAIN Hdr THEN {<<Hdr.known[i][1], Hdr.known[i][2]>> : i \in 1..Len(Hdr.known)} ELSE {}
+NoPropertyViolation == \A i \in 1..Len(pviol) : <<pviol[i][1], pviol[i][2]>> \in KnownSigs /\ PrintT(<<"KNOWN-HIT", pviol[i][1], pviol[i][2], l - 1>>)
 C06_ParityValid == dmg \/ ParityValid(C, par)
 C06_MapSane == MapSane(C)
 Accepted == TLCGet("stats").diameter = Len(TraceLog)
